@@ -14,6 +14,50 @@ pub struct Case {
     pub cont: Container,
     pub cmd: Cmd,
     pub via_cli: bool,
+    /// a record start moved onto a block boundary of the single-line FASTA text
+    #[serde(default)]
+    pub align: Option<gen::Align>,
+    /// a block of identical degenerate records inserted at a record index that is a multiple of the block
+    /// size: (kind, block size, at which multiple, records that follow are kept)
+    #[serde(default)]
+    pub block: Option<(u8, usize, u8)>,
+}
+
+/// the record list as it is written: with the degenerate block and the aligned record start
+pub fn materialise(c: &Case) -> Vec<Rec> {
+    let mut recs = c.recs.clone();
+    if let Some((kind, size, mult)) = c.block {
+        let scale = match c.cmd.sub { Sub::Min => (if c.cmd.w == 0 { c.cmd.m } else { c.cmd.w }) as usize, Sub::Cgr => 4, _ => c.cmd.k as usize }.max(1);
+        let seq: Vec<u8> = match kind % 4 {
+            0 => Vec::new(),
+            1 => b"ACGTTGCAAGGCTTAACCGGTTACGATCGATCGGCTAGGC"[..(scale - 1).min(40)].to_vec(),
+            2 => if c.cmd.sub == Sub::Cgr { Vec::new() } else { vec![b'N'; scale + 1] },
+            _ => b"A".to_vec(),
+        };
+        // pad the list with ordinary records up to the multiple, insert the block, keep the rest behind it
+        let at = (mult as usize % 3) * size;
+        let mut out: Vec<Rec> = Vec::with_capacity(at + size + recs.len());
+        let filler = recs.first().cloned().unwrap_or(Rec { id: "f".into(), desc: None, seq: crate::util::Bytes(b"ACGTTGCAAGGCTTAACCGGTTACGATCGATCGGCTAGGCACGT".to_vec()) });
+        let (head, tail) = recs.split_at(recs.len().min(at).min(recs.len() / 2));
+        out.extend_from_slice(head);
+        let mut i = 0;
+        while out.len() < at {
+            out.push(Rec { id: format!("fill{}", i), desc: None, seq: filler.seq.clone() });
+            i += 1;
+        }
+        for j in 0..size {
+            out.push(Rec { id: format!("blk{}", j), desc: None, seq: crate::util::Bytes(seq.clone()) });
+        }
+        out.extend_from_slice(tail);
+        if tail.is_empty() {
+            out.push(Rec { id: "after_block".into(), desc: None, seq: filler.seq.clone() });
+        }
+        recs = out;
+    }
+    if let Some(a) = &c.align {
+        let _ = gen::align_records(&mut recs, a);
+    }
+    recs
 }
 
 fn norm_text(s: &[u8]) -> Vec<u8> {
@@ -191,8 +235,13 @@ pub fn validate(c: &Case, o: &Outcome) -> Result<(), (String, String)> {
     }
 }
 
-pub fn check_case(c: &Case) -> Verdict {
+pub fn check_case(c0: &Case) -> Verdict {
     let mut v = Verdict::new();
+    let c = &Case { recs: materialise(c0), align: None, block: None, ..c0.clone() };
+    if let Some((kind, size, _)) = c0.block {
+        v.class(format!("block-of-{}-{}-records", size, ["empty", "shorter-than-scale", "all-N", "one-base"][kind as usize % 4]));
+    }
+    v.class_if(c0.align.is_some(), "record-start-on-a-block-boundary");
     let cmd = &c.cmd;
     let (k, m, w) = (cmd.k as usize, cmd.m as usize, cmd.w as usize);
     let scale = match cmd.sub {
@@ -284,12 +333,13 @@ fn case_strategy(tier: Tier, cli: bool) -> BoxedStrategy<Case> {
                     if !recs.is_empty() && !(cont.is_fastq() && s.is_empty()) {
                         let idx = crate::util::idx16(i, recs.len());
                         recs[idx].seq = crate::util::Bytes(s);
-                        if let crate::gen::Format::Fasta { wrap } = &mut cont.format {
-                            *wrap = None;
+                        match &mut cont.format {
+                            crate::gen::Format::Fasta { wrap } => *wrap = None,
+                            crate::gen::Format::Fastq { wrap, .. } => *wrap = None,
                         }
                     }
                 }
-                Case { recs, alt, cont, cmd: cmd.clone(), via_cli: cli }
+                Case { recs, alt, cont, cmd: cmd.clone(), via_cli: cli, align: None, block: None }
             })
         })
         .boxed()
@@ -319,7 +369,47 @@ impl Leg for LibLeg {
     }
 }
 
+/// many degenerate records in a row (blocks of 64 ... 4096 identical empty / too short / all-N / one-base
+/// records starting at a record index that is a multiple of the block size) and record starts on block
+/// boundaries of the text (4 KiB ... 2 MiB): batch-by-count and scan-by-block code paths
+pub struct Blocks;
+impl Leg for Blocks {
+    type Case = Case;
+    const NAME: &'static str = "blocks-and-boundaries";
+    fn strategy(tier: Tier) -> BoxedStrategy<Case> {
+        let sizes = vec![64usize, 100, 128, 255, 256, 257, 500, 512, 999, 1000, 1001, 1024, 2000, 2048, 4096];
+        (any::<bool>(), prop_oneof![1 => case_strategy(tier, true), 2 => case_strategy(tier, false)], 0u8..4, prop::sample::select(sizes), 0u8..3, gen::align_strategy(2 << 20))
+            .prop_map(|(blk, mut c, kind, size, mult, align)| {
+                c.cont = Container::plain_fasta();
+                if c.recs.iter().any(|r| r.seq.0.iter().any(|&b| b >= 0x80)) {
+                    // keep the text ASCII: the aligned offsets are computed on it
+                    for r in c.recs.iter_mut() {
+                        r.seq.0.retain(|&b| b < 0x80);
+                    }
+                }
+                if blk {
+                    c.block = Some((kind, size, mult));
+                } else {
+                    let align = if c.cmd.sub == Sub::Cgr { gen::Align { target: align.target.min(65536), ..align } } else { align };
+                    c.align = Some(align);
+                    if c.recs.len() < 2 {
+                        c.recs.push(Rec { id: "a1".into(), desc: None, seq: crate::util::Bytes(b"ACGTTGCAAGGCTTAACCGGTTACGATCGATCGGCTAGGCACGT".to_vec()) });
+                        c.recs.push(Rec { id: "a2".into(), desc: None, seq: crate::util::Bytes(b"TTGACCAGTAGGCTAGCTAGGATCGAACGTTGCAAGG".to_vec()) });
+                    }
+                }
+                c
+            })
+            .boxed()
+    }
+    fn check(c: &Case) -> Verdict {
+        check_case(c)
+    }
+}
+
 pub fn run(ctx: &mut Ctx) {
+    let n = ctx.share(ctx.tier.pick(240, 4_800));
+    ctx.run_leg::<Blocks>(n, true, 40);
+
     let n = ctx.share(ctx.tier.pick(4_000, 60_000));
     ctx.run_leg::<CliLeg>(n, false, 120);
     let n = ctx.share(ctx.tier.pick(12_000, 200_000));
@@ -331,6 +421,7 @@ pub fn replay(leg: &str, case: &serde_json::Value) -> Option<Result<Verdict, Str
     match leg {
         "executable" => Some(crate::engine::replay_leg::<CliLeg>(case)),
         "library" => Some(crate::engine::replay_leg::<LibLeg>(case)),
+        "blocks-and-boundaries" => Some(crate::engine::replay_leg::<Blocks>(case)),
         _ => None,
     }
 }
